@@ -84,6 +84,24 @@ def formatter_exhaustive(ctx):
     ok = any("fmt(x.start) + ':' + fmt(x.stop) + ':' + fmt(x.step)" in t for t in texts) and \
         any("return fmt(x.start) + ':' + fmt(x.stop)" in t for t in texts) and any('type(x) is not slice' in t for t in texts)
     ctx.ob(ok, su, 'slices render as start:stop[:step] with None parts empty; other indexes by bbrepr')
+    fm = [n for n in su.own_nodes() if isinstance(n, ast.Lambda)]
+    ok = len(fm) == 1 and isinstance(fm[0].body, ast.IfExp)
+    if ok:
+        e = fm[0].body
+        v = fm[0].args.args[0].arg
+        t = e.test
+        none_test = isinstance(t, ast.Compare) and is_name(t.left, v) and isinstance(t.comparators[0], ast.Constant) \
+            and t.comparators[0].value is None
+        if none_test and isinstance(t.ops[0], ast.Is):
+            empty, shown = e.body, e.orelse
+        elif none_test and isinstance(t.ops[0], ast.IsNot):
+            empty, shown = e.orelse, e.body
+        else:
+            empty = shown = None
+        ok = empty is not None and isinstance(empty, ast.Constant) and empty.value == '' and isinstance(shown, ast.Call) \
+            and is_name(shown.args[0], v)
+    ctx.ob(ok, su, 'exactly None is rendered as an empty slice part (0 and other falsy bounds are kept): %s' % [norm(x) for x in fm],
+           '' if ok else 'a falsy but meaningful bound (0) would vanish from the repr')
     # _format_path: P args by repr, T chunks by _format_t
     fu = ctx.unit('core._format_path')
     jn = [n for n in fu.own_nodes() if isinstance(n, ast.BinOp) and isinstance(n.op, ast.Mod) and isinstance(n.left, ast.Constant)
